@@ -164,6 +164,12 @@ def stay_up(sim, hold, periods=3):
         r.settle(fire_due=True)
         return sim.state == 'ESTABLISHED'
     step = hold / 3.0
+    # a peer that behaves from now on starts its keepalive schedule now: on a session inherited from an
+    # adversarial history the agent's hold timer may already be almost used up
+    live = live_connectors(sim)
+    if live and sim.state == 'ESTABLISHED':
+        r.peer_send(live[-1], rc.keepalive())
+        r.settle(fire_due=True)
     for _ in range(3 * periods):
         r.advance(step)
         r.settle(fire_due=True)
